@@ -680,6 +680,12 @@ func init() {
 		w := sc.w
 		p := sc.std.Pools[2] // the deep oracle pool: 1,000,000 USDC : 200,000 ATOM
 		price := sc.std.Prices["ATOM"]
+		// governance has set a low pool-health threshold: the health test in front of the custody test lets the exits below through
+		w.Seed(func(ctx sdk.Context) {
+			pp := w.App.PerpetualKeeper.GetParams(ctx)
+			pp.PoolOpenThreshold = D("0.05")
+			_ = w.App.PerpetualKeeper.SetParams(ctx, &pp)
+		})
 		for i := 1; i <= 2; i++ {
 			u := w.Accts[i]
 			sc.Tx("perp.open", u, J{"pool": p.Id, "long": false, "collateral": []string{sc.std.USDC, "100000000000"}, "leverage": "1.5"},
